@@ -45,6 +45,13 @@ def scenario(cls, kw, other=None):
         nt = XE.XMLNote(); nt.add_child(pi); nt.add_child(XE.XMLDuration(1))
         out.append('NEST:' + nt.to_string())
         out.append('NEST:' + pi.to_string())
+        # repeated groups: the second item makes the container duplicate a part of itself from the shared schema node
+        orn = XE.XMLOrnaments(); orn.add_child(XE.XMLTrillMark()); orn.add_child(XE.XMLTrillMark())
+        out.append('NEST:' + orn.to_string())
+        sp = XE.XMLScorePart(id='P1'); sp.add_child(XE.XMLPartName('A'))
+        for k_ in (1, 2):
+            sp.add_child(XE.XMLMidiDevice(id='I%d' % k_)); sp.add_child(XE.XMLMidiInstrument(id='I%d' % k_))
+        out.append('NEST:' + sp.to_string())
     except Exception as ex:
         out.append('NEST:EXC:' + type(ex).__name__ + ':' + str(ex)[:160])
     # what the OTHER thread's scenario supplies, offered to this thread's class: the other thread's text value and the other thread's attribute
